@@ -153,7 +153,15 @@ let run_rqueue (input : Sexp.t) (impl : Sexp.t) : Verdict.t =
   let replays = List.length (List.filter (fun x -> match x with XReadInflight (_ :: _) -> true | _ -> false) iouts) in
   let panics = List.exists (fun x -> x = XPanic) iouts in
   let restarts = List.exists (fun o -> o = ORestart) ops in
-  { Verdict.agree; oracle; kf = "-";
+  let kf = match rq_class max ifexp ops with
+    | RQNone -> "-"
+    | RQLenAfterRestart -> "kf_redis_queue_len_after_restart"
+    | RQLrangeMinus1 -> "kf_redis_queue_lrange_minus1"
+    | RQAddBeforeReplay -> "kf_redis_queue_add_before_replay"
+    | RQStaleCache -> "kf_redis_queue_stale_cache"
+    | RQReplaceCursor0 -> "kf_redis_queue_replace_cursor0"
+    | RQOther -> "unclassified" in
+  { Verdict.agree; oracle; kf;
     nontrivial = reads > 0 && (drops > 0 || replays > 0);
     cls = Printf.sprintf "max%d_drops%s_reads%s_replay%s%s%s%s" (int_of_nat max) (if drops = 0 then "0" else "some")
         (if reads = 0 then "0" else "some") (if replays = 0 then "0" else "some") (if restarts then "_restart" else "")
